@@ -302,8 +302,19 @@ func (c *Ctx) build(assumptions []Term, last Term, getValues []string) string {
 	if c.Logic != "" {
 		b.WriteString("(set-logic " + c.Logic + ")\n")
 	}
+	// sort declarations first (a heap constant may be registered before the
+	// datatype of its element sort is declared), then everything else in order
+	isSortDecl := func(e *entry) bool {
+		return strings.HasPrefix(e.text, "(declare-datatypes") || strings.HasPrefix(e.text, "(declare-sort")
+	}
 	for i, e := range c.entries {
-		if inclE[i] {
+		if inclE[i] && isSortDecl(e) {
+			b.WriteString(e.text)
+			b.WriteByte('\n')
+		}
+	}
+	for i, e := range c.entries {
+		if inclE[i] && !isSortDecl(e) {
 			b.WriteString(e.text)
 			b.WriteByte('\n')
 		}
